@@ -37,6 +37,13 @@ def native(chk, unit):
 def native_stage(chk, exe, extracted=True):
     n = 200000 if chk.tier == "quick" else 20000000
     rc, o, e, secs = hv.run([exe, "fidelity", str(chk.seed), str(n)], timeout=3000)
+    if rc < 0 or rc >= 128:
+        # the real simulator died on a state inside the property's quantifier (the sweep only steps defined, in-range states)
+        p = chk.replay_path("native-crash")
+        json.dump({"property": PID, "obligation": "native sweep", "what": "real hexsim::Processor crashed (rc=%d) while executing one defined instruction from a seeded state" % rc,
+                   "reproduce": "%s fidelity %d %d" % (exe, chk.seed, n)}, open(p, "w"), indent=1)
+        chk.add_violation("native-sweep", p, "real hexsim crashed (rc=%d) executing a defined, in-range instruction during the seeded state sweep" % rc, True)
+        return
     try:
         fid = json.loads(o)
     except Exception:
